@@ -364,30 +364,32 @@ class BodyPartReader:
 
         size: chunk size
         """
-        if self._at_eof:
-            return b""
-        carry = self._b64_carry
-        want = size - len(carry)
-        if carry:
-            self._b64_carry = b""
-            want = max(want, self._boundary_len)
-        if self._length:
-            fresh = await self._read_chunk_from_length(want)
-        else:
-            fresh = await self._read_chunk_from_stream(want)
-        chunk = carry + fresh
-        self._read_bytes += len(fresh)
+        chunk = b""
+        # A base64 chunk shorter than a quartet is carried rather than handed
+        # back, so read on until there is something to return.
+        while not chunk and not self._at_eof:
+            carry = self._b64_carry
+            want = size - len(carry)
+            if carry:
+                self._b64_carry = b""
+                want = max(want, self._boundary_len)
+            if self._length:
+                fresh = await self._read_chunk_from_length(want)
+            else:
+                fresh = await self._read_chunk_from_stream(want)
+            chunk = carry + fresh
+            self._read_bytes += len(fresh)
 
-        # base64 decodes in quartets and every chunk is decoded on its own, so
-        # a chunk should not end mid-quartet.
-        encoding = self.headers.get(CONTENT_TRANSFER_ENCODING)
-        if encoding and encoding.lower() == "base64":
-            chunk = self._align_base64_chunk(chunk, len(carry) + want)
+            # base64 decodes in quartets and every chunk is decoded on its own,
+            # so a chunk should not end mid-quartet.
+            encoding = self.headers.get(CONTENT_TRANSFER_ENCODING)
+            if encoding and encoding.lower() == "base64":
+                chunk = self._align_base64_chunk(chunk, len(carry) + want)
 
-        if self._read_bytes == self._length:
-            self._at_eof = True
-        if self._at_eof and await self._content.readline() != b"\r\n":
-            raise ValueError("Reader did not read all the data or it is malformed")
+            if self._read_bytes == self._length:
+                self._at_eof = True
+            if self._at_eof and await self._content.readline() != b"\r\n":
+                raise ValueError("Reader did not read all the data or it is malformed")
         return chunk
 
     def _align_base64_chunk(self, chunk: bytes, size: int) -> bytes:
@@ -411,6 +413,11 @@ class BodyPartReader:
             if chunk[cut] in _BASE64_CHARS:
                 left -= 1
         if not cut:
+            if len(chunk) < size:
+                # The stream delivered less than was asked for and not yet a
+                # whole quartet: keep it all, read_chunk() reads on.
+                self._b64_carry = chunk
+                return b""
             # No whole quartet to hand back, and carrying the lot would make
             # no progress: the caller asked for this many bytes, and a part
             # that holds no quartet within them holds none to give.
